@@ -1,0 +1,72 @@
+//go:build verif
+
+package state
+
+import (
+	"fmt"
+	"os"
+	"sync"
+)
+
+// Verification hooks: only compiled with the "verif" build tag.
+//
+// When the environment variable VERIF_SEQ_TRACE names a file, every decision
+// of every SequenceHandler in this process is appended to it as one JSON line,
+// written while the handler's lock is still held:
+//
+//	{"ev":"reset","h":H}                    new handler or new key epoch
+//	{"ev":"check","h":H,"hi":A,"lo":B,"ok":B}   sequence number A*65536+B
+//
+// so that the repository's own tests can be validated against the
+// specification without being edited.
+
+var (
+	verifSeqMu   sync.Mutex
+	verifSeqFile *os.File
+	verifSeqSeen map[*SequenceHandler]bool
+)
+
+func init() {
+	path := os.Getenv("VERIF_SEQ_TRACE")
+	if path == "" {
+		return
+	}
+	f, err := os.OpenFile(path, os.O_APPEND|os.O_CREATE|os.O_WRONLY, 0o644)
+	if err != nil {
+		return
+	}
+	verifSeqFile = f
+	verifSeqSeen = make(map[*SequenceHandler]bool)
+}
+
+func verifSeqID(sh *SequenceHandler) string {
+	return fmt.Sprintf("%d/%p", os.Getpid(), sh)
+}
+
+// verifSeqCheck runs deferred inside Check, before the lock is released:
+// the number was accepted exactly if the window state changed.
+func verifSeqCheck(sh *SequenceHandler, seqNum uint32, highestBefore uint32, bitMapBefore uint64) {
+	if verifSeqFile == nil {
+		return
+	}
+	ok := sh.highest != highestBefore || sh.bitMap != bitMapBefore
+	verifSeqMu.Lock()
+	defer verifSeqMu.Unlock()
+	if !verifSeqSeen[sh] {
+		verifSeqSeen[sh] = true
+		fmt.Fprintf(verifSeqFile, "{\"ev\":\"reset\",\"h\":%q}\n", verifSeqID(sh))
+	}
+	fmt.Fprintf(verifSeqFile, "{\"ev\":\"check\",\"h\":%q,\"hi\":%d,\"lo\":%d,\"ok\":%v}\n",
+		verifSeqID(sh), seqNum>>16, seqNum&0xFFFF, ok)
+}
+
+// verifSeqReset runs where the incoming window is restarted (key rollover).
+func verifSeqReset(sh *SequenceHandler) {
+	if verifSeqFile == nil {
+		return
+	}
+	verifSeqMu.Lock()
+	defer verifSeqMu.Unlock()
+	verifSeqSeen[sh] = true
+	fmt.Fprintf(verifSeqFile, "{\"ev\":\"reset\",\"h\":%q}\n", verifSeqID(sh))
+}
